@@ -154,6 +154,7 @@ def run(chk, repo, tier):
                       'have effect 1', line=cat.node.lineno, witness='the reference category changes the parameter')
     run_more(chk, repo)
     run_x5(chk, repo)
+    run_x6_x7(chk, repo)
 
 
 # names that are fixed on purpose: later transformations look these statements up by name (read and confirmed)
@@ -294,3 +295,73 @@ def run_x5(chk, repo):
                                       'the transformation of ETA_CL')
     if n == 0:
         raise AnalysisError('X5: construction of the transformed eta symbols not found')
+
+
+def run_x6_x7(chk, repo):
+    """X6: the covariate statistics are computed the same way (per individual first); X7: remove_iiv drops a whole term of a
+    sum only when the term is exactly exp(<something>)"""
+    from sa.cfg import CFG
+    from sa import guards as G_, reach
+    X6 = chk.rule('X6', 'covariate statistics (mean, median, std): the default branch aggregates per individual first '
+                        '(groupby on the subject) in every sibling', floor=3)
+    cm = repo.module('pharmpy.modeling.covariate_effect')
+    sib = {n: cm.functions.get(n) for n in ('_calculate_mean', '_calculate_median', '_calculate_std')}
+    if any(v is None for v in sib.values()):
+        raise AnalysisError('X6: _calculate_mean / _median / _std not found')
+    forms = {}
+    for name, f in sib.items():
+        # the branch taken when `baselines` is false: the else branch of `if baselines`, or the code after it
+        I = next((x for x in f.node.body if isinstance(x, ast.If) and 'baselines' in unparse(x.test)), None)
+        tail = (I.orelse or f.node.body[f.node.body.index(I) + 1:]) if I is not None else f.node.body
+        rets = [r.value for s_ in tail for r in ast.walk(s_) if isinstance(r, ast.Return) and r.value is not None]
+        if not rets:
+            raise AnalysisError(f'X6: default branch of {name} not found')
+        cfg = CFG(f.node)
+        node_id = reach.node_containing(cfg, rets[-1])
+        e = reach.expand_expr(cfg, node_id, rets[-1]) if node_id is not None else rets[-1]
+        forms[name] = any(isinstance(c, ast.Call) and isinstance(c.func, ast.Attribute) and c.func.attr == 'groupby'
+                          for c in ast.walk(e))
+        chk.instance(X6, f'{name}: default branch `{unparse(e)[:70]}` groups by individual: {forms[name]}')
+    if len(set(forms.values())) != 1 or not all(forms.values()):
+        odd = [n for n, v in forms.items() if not v]
+        chk.violation(X6, cm.rel, ', '.join(odd) or '_calculate_*', f'per-individual aggregation: {forms}',
+                      'the documented statistic is computed per individual first and then over the individuals; one sibling '
+                      'pools all records, so individuals with more records weigh more', line=sib[odd[0]].node.lineno if odd else 1,
+                      witness='a user effect string with the mean placeholder on data with different numbers of records per '
+                              'individual: the effect is not neutral at the documented reference')
+    X7 = chk.rule('X7', 'remove_iiv: a whole term of a sum is replaced by 0 only under a test that the term is exp(...) itself '
+                        '(its func is exp), not that it merely contains an exp', floor=1)
+    pm = repo.module('pharmpy.modeling.parameter_variability')
+    f = pm.functions.get('remove_iiv')
+    if f is None:
+        raise AnalysisError('remove_iiv not found')
+    cfg = CFG(f.node)
+    n7 = 0
+    for nd in cfg.nodes.values():
+        a = nd.ast
+        if nd.kind != 'stmt' or not isinstance(a, ast.Assign):
+            continue
+        for c in [x for x in ast.walk(a.value) if isinstance(x, ast.Call) and isinstance(x.func, ast.Attribute)
+                  and x.func.attr == 'subs' and x.args and isinstance(x.args[0], ast.Dict) and len(x.args[0].keys) == 1]:
+            key, val = x_key_val = (c.args[0].keys[0], c.args[0].values[0])
+            if not (isinstance(val, ast.Constant) and val.value == 0 and isinstance(key, ast.Subscript)
+                    and 'args' in unparse(key)):
+                continue
+            n7 += 1
+            term = unparse(key)
+
+            def is_exp(e, term=term):
+                if isinstance(e, ast.Compare) and len(e.ops) == 1 and isinstance(e.ops[0], (ast.Eq, ast.Is)) \
+                        and unparse(e.left).startswith(term) and unparse(e.left).endswith('.func') \
+                        and unparse(e.comparators[0]).endswith('exp'):
+                    return True
+                return None
+            ok = bool(G_.guarded(cfg, nd.id, is_exp))
+            chk.instance(X7, f'remove_iiv: `{unparse(c)[:60]}` under a test `{term}.func == exp`: {ok}')
+            if not ok:
+                chk.violation(X7, pm.rel, f.name, unparse(c)[:100],
+                              'a term that only contains an exponential (a product with exp(eta) after expansion) is dropped '
+                              'as a whole instead of setting the eta to zero', line=nd.line,
+                              witness='CL = (TVCL + THETA(4)*WGT)*EXP(ETA(1)); remove_iiv gives CL = 0')
+    if n7 == 0:
+        raise AnalysisError('X7: replacement of a whole term by 0 not found in remove_iiv')
